@@ -8,7 +8,7 @@ from . import common
 
 JOBS = {"quick": 4, "thorough": 16}
 CONTROL = ("op", "strategy", "handler", "sleep", "dsleep", "poll", "budget", "br.allow", "br.success", "br.failure", "br.cancel")
-EXCS = ["RuntimeError", "HookBoom", "StopIteration", "KeyError", "AbortRetryError", "RetryExhaustedError", "CircuitOpenError", "TimeoutError", "OSError", "ValueError", "BadStrError", "NonStrError", "TypeError", "BadReprError"]
+EXCS = ["RuntimeError", "HookBoom", "StopIteration", "KeyError", "AbortRetryError", "RetryExhaustedError", "CircuitOpenError", "TimeoutError", "OSError", "ValueError", "BadStrError", "NonStrError", "TypeError", "BadReprError", "EmptyHookError"]
 HOOKS = ["metric", "log", "before_sleep"]
 
 
